@@ -52,7 +52,7 @@ def handle (args : List String) : String :=
   | ["c10.build", cached, n, info, lens, xl, tl] =>
     match boolOf cached, natOf n, boolOf info, DrvC09.parseLens lens, natOf xl, natOf tl with
     | some c, some n, some inf, some ls, some xl, some tl =>
-      let L : Layout := ⟨DrvC09.lookupLen ls, fun _ => xl, fun _ => tl⟩
+      let L : Layout := ⟨DrvC09.lookupLen ls, fun _ => xl, fun _ => tl, true⟩
       match build L c (pagesN n) (if inf then some 7 else none) with
       | .ok (d, i) =>
         let rd := resolve d.st
